@@ -109,18 +109,27 @@ impl<'j> Runner<'j> {
         Runner { job, b: None, step: 0, out: None }
     }
     fn steps(job: &Job) -> usize {
-        job.kvs.len() + 2
+        if job.kind == 4 {
+            3
+        } else {
+            job.kvs.len() + 2
+        }
     }
     /// Executes the next API call of this builder.
     fn advance(&mut self) -> Result<(), String> {
         let e = |e: fst::Error| format!("{:?}", e);
-        let n = self.job.kvs.len();
+        let n = if self.job.kind == 4 { 1 } else { self.job.kvs.len() };
         if self.step == 0 {
             self.b = Some(match self.job.kind {
                 1 => Live::Map(fst::MapBuilder::new(vec![]).map_err(e)?),
                 2 => Live::Set(fst::SetBuilder::new(vec![]).map_err(e)?),
                 _ => Live::Raw(front::raw_builder(vec![], 0, self.job.geom).map_err(e)?),
             });
+        } else if self.step <= n && self.job.kind == 4 {
+            match self.b.as_mut().unwrap() {
+                Live::Raw(b) => b.extend_iter(self.job.kvs.iter().map(|(k, v)| (k, raw::Output::new(*v)))).map_err(e)?,
+                _ => unreachable!(),
+            }
         } else if self.step <= n {
             let (k, v) = &self.job.kvs[self.step - 1];
             match self.b.as_mut().unwrap() {
@@ -156,6 +165,18 @@ fn solo(job: &Job) -> Result<Vec<u8>, String> {
 
 /// All interleavings of the call sequences of the given jobs.
 pub fn run_interleavings(jobs: &[Job]) -> Result<u64, String> {
+    // on a fresh thread, so that thread-local state of the library (if any)
+    // starts clean: the solo runs come first, the interleavings after them
+    let jobs: Vec<Job> = jobs.to_vec();
+    std::thread::spawn(move || {
+        crate::ev::install_quiet_panic_hook();
+        run_interleavings_here(&jobs)
+    })
+    .join()
+    .unwrap_or_else(|_| Err("interleaving thread panicked".into()))
+}
+
+fn run_interleavings_here(jobs: &[Job]) -> Result<u64, String> {
     guard(|| {
         let solos: Vec<Vec<u8>> = jobs.iter().map(solo).collect::<Result<_, _>>()?;
         let steps: Vec<usize> = jobs.iter().map(Runner::steps).collect();
@@ -213,6 +234,23 @@ fn jobs_list() -> Vec<Job> {
     ]
 }
 
+/// Jobs with wide nodes (> 32 transitions): a narrow-wide one with small
+/// address deltas and a wider one with large deltas. Few API calls each
+/// (the keys go in through one extend_iter call), so that all interleavings
+/// stay enumerable.
+fn wide_jobs() -> Vec<Job> {
+    let narrow: Vec<Key> = (0..40u8).map(|i| vec![b'0' + i]).collect();
+    let mut wide: Vec<Key> = vec![];
+    for b in 0..=255u8 {
+        wide.push(vec![b, b'x', b]);
+    }
+    vec![
+        Job { kind: 4, geom: DEFAULT_GEOM, kvs: Pat::Zero.apply(&narrow) },
+        Job { kind: 4, geom: DEFAULT_GEOM, kvs: Pat::Lin3.apply(&wide) },
+        Job { kind: 4, geom: (2, 2), kvs: Pat::Lin3.apply(&narrow) },
+    ]
+}
+
 // ---- whole-scope digest (threads, processes) -------------------------------
 
 pub fn scope_digest() -> Result<u64, String> {
@@ -234,6 +272,9 @@ pub fn scope_digest() -> Result<u64, String> {
             mix(&front::build(Front::RawInsert, (1, 1), &Pat::Lin3.apply(&keys))?);
         }
     }
+    for (_, kvs) in long_tail_family() {
+        mix(&front::build(Front::RawInsert, DEFAULT_GEOM, &kvs)?);
+    }
     // a corpus under a small cache, where evictions occur
     let data = std::fs::read("/repo/data/words-10000").map_err(|e| format!("machinery: {}", e))?;
     let mut keys: Vec<Key> = data.split(|&b| b == b'\n').filter(|l| !l.is_empty()).map(|l| l.to_vec()).collect();
@@ -242,6 +283,29 @@ pub fn scope_digest() -> Result<u64, String> {
     mix(&front::build(Front::RawInsert, (100, 2), &Pat::Idx.apply(&keys))?);
     mix(&front::build(Front::SetInsert, DEFAULT_GEOM, &Pat::Zero.apply(&keys))?);
     Ok(h)
+}
+
+/// Few (<= 64) long keys sharing long tails: hundreds of distinct nodes from
+/// a handful of keys (an entry point that sizes anything by the number of
+/// keys behaves differently here).
+pub fn long_tail_family() -> Vec<(String, Vec<Kv>)> {
+    let mut v = vec![];
+    for (nkeys, tail) in [(40usize, 180usize), (60, 100), (10, 500), (64, 64)] {
+        for valued in [false, true] {
+            let t: Vec<u8> = (0..tail).map(|i| b'a' + ((i * 7 + i / 13) % 26) as u8).collect();
+            let mut kvs: Vec<Kv> = vec![];
+            for i in 0..nkeys {
+                let mut k = vec![b'A' + (i / 26) as u8, b'a' + (i % 26) as u8];
+                // tails share a suffix but differ in their first part
+                k.extend((0..(i % 7)).map(|j| b'0' + j as u8));
+                k.extend_from_slice(&t);
+                kvs.push((k, if valued { (i as u64 + 1) * 1000 } else { 0 }));
+            }
+            kvs.sort();
+            v.push((format!("long-tail-{}x{}-{}", nkeys, tail, if valued { "map" } else { "set" }), kvs));
+        }
+    }
+    v
 }
 
 /// Scans /repo/src for constructs that would make builders share state
@@ -310,12 +374,36 @@ pub fn replay(case: &Value) -> Result<String, String> {
             let kvs = corpus_sample(case["name"].as_str().unwrap(), case["take"].as_u64().unwrap() as usize, case["set"].as_bool().unwrap())?;
             run_fronts(&kvs, &[]).map(|n| format!("{} builds byte-identical", n))
         }
+        "interleave-wide" => {
+            let all = wide_jobs();
+            let jobs: Vec<Job> = case["jobs"].as_array().unwrap().iter().map(|i| all[i.as_u64().unwrap() as usize].clone()).collect();
+            run_interleavings(&jobs).map(|n| format!("{} interleavings, all byte-identical to the solo runs", n))
+        }
         "interleave" => {
             let all = jobs_list();
             let jobs: Vec<Job> = case["jobs"].as_array().unwrap().iter().map(|i| all[i.as_u64().unwrap() as usize].clone()).collect();
             run_interleavings(&jobs).map(|n| format!("{} interleavings, all byte-identical to the solo runs", n))
         }
-        _ => scope_digest().map(|d| format!("digest {:016x}", d)),
+        _ => {
+            // the defect is non-determinism itself: compare a second build in
+            // this thread, one on another thread and one in a child process
+            let a = scope_digest()?;
+            let b = scope_digest()?;
+            let c = std::thread::spawn(scope_digest).join().map_err(|_| "thread panicked".to_string())??;
+            let exe = std::env::current_exe().map_err(|e| e.to_string())?;
+            let o = std::process::Command::new(exe).arg("C15-CHILD").output().map_err(|e| format!("machinery: {}", e))?;
+            let d = String::from_utf8_lossy(&o.stdout).trim().to_string();
+            if a != b {
+                return Err("two builds of the same scope in one thread produce different bytes".into());
+            }
+            if a != c {
+                return Err("a build of the scope on another thread produces different bytes".into());
+            }
+            if d != format!("DIGEST {:016x}", a) {
+                return Err("a build of the scope in another process produces different bytes".into());
+            }
+            Ok(format!("digest {:016x} in this thread, another thread and another process", a))
+        }
     }
 }
 
@@ -359,7 +447,7 @@ pub fn plan(tier: Tier) -> Plan {
     let mut p = Plan::new("C15", "model_checking");
     let thorough = tier.thorough();
     let scan = shared_state_scan();
-    p.rule = "(1) for every accepted sequence of the scope (subsets of U_ab3 with <= 4 keys quick / all thorough, x value patterns; fan-out families) the bytes through all 17 front ends, Builder::memory, a BufWriter, a 3-bytes-per-call sink and Map::from_iter are identical, and the raw front ends agree under the tiny cache geometries 1x1, 2x2, 3x3 (where evictions make the bytes depend on cache behaviour), also when repeated; the same for samples of the shipped corpora (400..10000 keys), where the DEFAULT cache is under pressure; (2) EVERY call-level interleaving (multiset permutations of the API calls new/insert.../finish) of every ordered pair (thorough: also triples of shorter jobs) of 6 builder jobs of different kinds and geometries driven from one thread: each builder must produce the bytes of its solo run; (3) the whole-scope digest computed on 8 free-running OS threads and in 4 child processes (std RandomState differs per process) must be equal - a repetition over an uncontrolled seed, reported as such. non-trivial = interleavings with at least one context switch".into();
+    p.rule = "(1) for every accepted sequence of the scope (subsets of U_ab3 with <= 4 keys quick / all thorough, x value patterns; fan-out families) the bytes through all 17 front ends, Builder::memory, a BufWriter, a 3-bytes-per-call sink and Map::from_iter are identical, and the raw front ends agree under the tiny cache geometries 1x1, 2x2, 3x3 (where evictions make the bytes depend on cache behaviour), also when repeated; the same for samples of the shipped corpora (400..10000 keys), where the DEFAULT cache is under pressure; the same for a long-tail family (10..64 keys of 66..502 bytes sharing long tails); (2) EVERY call-level interleaving (multiset permutations of the API calls new/insert.../finish) of every ordered pair (thorough: also triples of shorter jobs) of 6 builder jobs of different kinds and geometries driven from one thread: each builder must produce the bytes of its solo run (each pair runs on a fresh thread; pairs of jobs with wide nodes included); (3) the whole-scope digest computed twice on one thread, on 8 free-running OS threads and in 4 child processes (std RandomState differs per process) must be equal - a repetition over an uncontrolled seed, reported as such. non-trivial = interleavings with at least one context switch".into();
     p.assumptions = vec![
         format!("the library has no synchronisation operation and no shared mutable state, so thread interleavings are one Mazurkiewicz trace and a controlled scheduler (loom/shuttle) would have no scheduling point to branch on; scan of /repo/src for static mut/thread_local/lazy_static/OnceCell/OnceLock/Atomic/Mutex/RwLock/RandomState/DefaultHasher/unsafe outside hook items found: {}", if scan.is_empty() { "nothing".to_string() } else { scan.join("; ") }),
         "call-level interleavings of builders on one thread expose any instance-crossing (global or thread-local) state".into(),
@@ -397,6 +485,13 @@ pub fn plan(tier: Tier) -> Plan {
             }
         }));
     }
+    p.units.push(unit("long-tail-family-all-front-ends-byte-identical", "long tails".into(), move |st, rep| {
+        for (_, kvs) in long_tail_family() {
+            st.count("long_tail_cases", 1);
+            st.nontrivial += 1;
+            do_fronts(&kvs, &[(2, 2)], st, rep);
+        }
+    }));
     // inputs large enough to put the DEFAULT cache under pressure (evictions
     // decide the bytes there): every front end must still agree
     for (name, take, set) in [("words-10000", 10_000usize, true), ("words-10000", 10_000, false), ("words-10000", 3_000, false), ("words-10000", 400, true), ("wiki-urls-10000", 10_000, true), ("wiki-urls-10000", 1_500, false)] {
@@ -430,6 +525,26 @@ pub fn plan(tier: Tier) -> Plan {
             }));
         }
     }
+    {
+        let wj = wide_jobs();
+        for i in 0..wj.len() {
+            for j in 0..wj.len() {
+                let pair = vec![wj[i].clone(), wj[j].clone()];
+                p.units.push(unit("call-level-interleavings-of-2-builders-with-wide-nodes", format!("interleave wide {} {}", i, j), move |st, rep| {
+                    st.states += 1;
+                    match run_interleavings(&pair) {
+                        Ok(n) => {
+                            st.evals += n;
+                            st.transitions += n * 6;
+                            st.nontrivial += n - 2;
+                            st.count("interleavings", n);
+                        }
+                        Err(msg) => rep.violation(format!("interleave wide jobs {} {}", i, j), msg, json!({"kind": "interleave-wide", "jobs": [i, j]})),
+                    }
+                }));
+            }
+        }
+    }
     if thorough {
         for i in 0..jobs.len() {
             for j in 0..jobs.len() {
@@ -452,6 +567,11 @@ pub fn plan(tier: Tier) -> Plan {
     p.units.push(unit("threads-and-processes-digest", "digest".into(), move |st, rep| {
         let here = match scope_digest() { Ok(d) => d, Err(e) => { rep.violation("digest".into(), e, json!({"kind": "digest"})); return; } };
         st.evals += 1;
+        // the same scope once more on this very thread (state left behind by the first pass)
+        match scope_digest() {
+            Ok(d) if d == here => st.count("same_thread_repetitions", 1),
+            other => rep.violation("same thread twice".into(), format!("building the same scope a second time on the same thread produced different bytes: {:?} vs {:016x}", other.map(|d| format!("{:016x}", d)), here), json!({"kind": "digest"})),
+        }
         let hs: Vec<_> = (0..8).map(|_| std::thread::spawn(scope_digest)).collect();
         for (i, h) in hs.into_iter().enumerate() {
             st.evals += 1;
